@@ -36,6 +36,9 @@ def gen_cases(tier: str, seed: int) -> list[dict]:
         for ty in PAIR_TYPES:
             for nth in ((1,) if tier == "quick" else (0, 1, 2)):
                 cases.append({"kind": "pair", "spec": spec, "type": ty, "nth": nth, "seed": seed, "sample": 40 if tier == "quick" else 1500})
+    # a sweep concurrent with the handler that wakes a suspended stage (the signal is sent by the harness)
+    for persistent in (True, False):
+        cases.append({"kind": "pair", "spec": 4, "type": "SignalStage", "nth": 0, "seed": seed, "sample": 60 if tier == "quick" else 1500, "persistent": persistent})
     return cases
 
 
@@ -143,8 +146,9 @@ def _pair(case: dict) -> dict:
     from .. import interleave as il
     from ..world import World
 
-    spec = [specs.diamond(True), specs.diamond(False), specs.synthetic(), specs.multitask()][case["spec"]]
-    ref = delivery_run(spec)
+    spec = [specs.diamond(True), specs.diamond(False), specs.synthetic(), specs.multitask(), specs.suspend_wf()][case["spec"]]
+    sig_inj = [{"at": 10**6, "do": "signal", "ref": "w", "persistent": True, "id": "sS"}] if case["spec"] == 4 else None
+    ref = delivery_run(spec, injections=[{"at": 40, "do": "signal", "ref": "w", "persistent": True, "id": "sS"}] if sig_inj else None)
     ty = case["type"]
     # cut: the n-th message of that type is pending
     w = World()
@@ -152,8 +156,13 @@ def _pair(case: dict) -> dict:
     try:
         w.submit(spec)
         seen = 0
+        signalled = False
         for _ in range(300):
             rows = w.rows()
+            if not rows and case["spec"] == 4 and not signalled and w.snapshot_state()["stages"]["w"]["status"] == "SUSPENDED":
+                w.signal("w", "go", {"id": "sS"}, bool(case.get("persistent", True)))
+                signalled = True
+                rows = w.rows()
             if not rows:
                 break
             ready = w.eligible(rows)
